@@ -362,6 +362,12 @@ def t_negreg(g):
         rv = g.rstlit(p)
         g.emit(f"pipein {n} G {p}" + (f" rst {rv}" if resets else ""))
         g.define(n, g.typ[p]); gouts.append(n); rsts[n] = rv
+    # mostly close the stall scope here: the partner register is then stalled ONLY through the enable
+    # output of the negative register (as an external node's enable pin would be)
+    if stall and r.random() < 0.75:
+        g.emit("endenif")
+        stall = False
+        g.feat.add("negreg-partner-enabled-only-by-negreg-enable")
     # negative register on the first output (optionally on two outputs of equal type, combined)
     a = gouts[0]
     an = g.fresh("n")
